@@ -87,7 +87,9 @@ def run(tier):
     for e in ENTRIES:
         need(run, "C04-LOOPS", f, e) if False else None
     loops_rule(run, f, "C04-LOOPS", roots, floor=12)
+    from rules.common import hosted
     for e in ENTRIES[:4]:
-        if f.body(e) is None:
+        # an entry point that was inlined into its only caller is still covered: that caller is an entry point too
+        if f.body(e) is None and hosted(run, f, e) is None:
             run.missing("C04-LOOPS", e)
     return run.finish()
